@@ -126,8 +126,8 @@ def get_capacity(capacity, offset, skip_bytes):
     # To store more than 254 byte ndef we must use three length bytes,
     # otherwise it's only one. But only if the capacity is more than
     # 256 the three length byte format will provide a higher value.
-    capacity -= 4 if capacity > 256 else 2
-    return capacity
+    capacity -= 2 if capacity <= 256 else min(4, capacity - 254)
+    return max(capacity, 0)
 
 
 class Type2Tag(Tag):
